@@ -3060,6 +3060,18 @@ fn oracle_c14(fields: &[&str]) -> String {
                             return format!("oracle FAIL cart inverse and Ellipsoid::geographic are {:.3e} m apart at ({}, {}, {})", d, x[0], x[1], x[2]);
                         }
                     }
+                    // cartesian points on the rotation axis (not reachable from geographic input: cos(pi/2) is not 0):
+                    // both routes, and the height |Z| - b
+                    let b = e.semiminor_axis();
+                    let axis: Vec<Coor4D> = [b - 5000.0, -(b - 5000.0), b + 1.0e4, -(b + 1.0e5), b].iter().map(|z| Coor4D([0.0, 0.0, *z, 2000.0])).collect();
+                    let (_, i) = tryrun!(run_kind("default", &format!("cart ellps={}", fields[1]), false, &axis));
+                    for (x, y) in axis.iter().zip(i.iter()) {
+                        let gq = e.geographic(x);
+                        let want = x[2].abs() - b;
+                        if !((gq[2] - want).abs() < 1e-6) || !((y[2] - want).abs() < 1e-3) || !((gq[1].abs() - std::f64::consts::FRAC_PI_2).abs() < 1e-9) {
+                            return format!("oracle FAIL on the rotation axis at Z = {}: Ellipsoid::geographic gives latitude {} height {}, cart inverse height {}, expected height {}", x[2], gq[1], gq[2], y[2], want);
+                        }
+                    }
                 }
                 "lat" => {
                     let def = format!("latitude {sub} ellps={}", fields[1]);
